@@ -22,7 +22,7 @@ META = {
         "technique": "deterministic simulation: seeded pool schedules/transports + call histories, row-at-a-time reference oracle",
         "level_text": "Seeded exploration of execution paths x schedules x call histories on the real code: every marginal_ln_likelihood path must return the "
         "row-at-a-time fresh-helper reference L* in input order (bitwise where both sides share a conversion), equal seeds must accept the same rows on every path, "
-        "and a long-lived helper driven through random likelihood/posterior/pickle interleavings must keep returning L*. Sampling, not proof: a clean batch is evidence.",
+        "and a long-lived helper driven through random likelihood/posterior/pickle interleavings must keep returning L*. Histories include: other data sets / libraries / posterior stages on the same TheJoker, one shared file name rewritten with another library (other units, other row count, also in append+overwrite mode), a survey replaced inside the same data container, setup_mcmc between calls, equal-seed call SEQUENCES under different batching (accepted set must agree at every step), real worker processes (proc transport); monitors: the user's library and data objects must not be edited, objects returned earlier must not change later; a sample of seeds is re-executed in fresh interpreters and must give the same outputs. Sampling, not proof: a clean batch is evidence.",
         "level_note": "Trusts: numpy/h5py/PyTables/astropy/dill; SimPool's model of multiprocess pools (by-value chunks, any completion order, results in task order); "
         "L* is computed by the system's own kernel so kernel arithmetic is out of scope (C01). Worker isolation is data-level only (one interpreter).",
         "design_ref": "DESIGN.md section 4 / C05",
@@ -83,7 +83,7 @@ META = {
         "level": "exploration",
         "technique": "deterministic simulation: seeded stateful write/overwrite/append/read histories against an in-memory table model, with refused-operation and storage-open faults",
         "level_text": "Histories of 2-10 file operations over 1-3 paths (.hdf5/.h5/.fits) are executed on the real code and compared op by op with a reference table model: read-back equality (columns, values bitwise, units, t_ref, poly_trend, n_offsets), "
-        "appends = concatenation, must-refuse appends (different column set, conflicting metadata) raise and leave the file byte-identical (SHA-256), may-refuse appends either raise+identical or convert correctly, read_batch returns exactly the requested rows/columns/units.",
+        "appends = concatenation, must-refuse appends (different column set, conflicting metadata) raise and leave the file byte-identical (SHA-256), may-refuse appends either raise+identical or convert correctly (an accepted append into a narrower float type must not change any value), read_batch returns exactly the requested rows/columns/units. Histories also: zero-row tables, the same JokerSamples object written again (also after a refused write), a column of a live object replaced between writes, the file used as a sampler library in between, and the sampler's own outputs written and appended.",
         "level_note": "Appending a table whose t_ref is None to a file that has one, and what remains after a write that failed half-way, are unspecified by the statement and not judged. Reading through an open PyTables group is outside the model (the code records that limitation).",
         "design_ref": "DESIGN.md section 4 / C12",
         "rule": "One case = one seeded history of file operations. distinct_nontrivial counts distinct (operation, variant/selector kind, file format, file existed or not) tuples reached; a single write is trivial, any op on an existing file or a refused/faulted op is not.",
@@ -94,11 +94,11 @@ META = {
         "technique": "fault enumeration inside deterministic simulation: every call event of the sampling entry points failed at its k-th occurrence (sys.monitoring), plus pool/worker/transport/RNG faults; leak, user-file-hash, propagation and follow-up-call oracles",
         "level_text": "For each sampled workload (entry point x cache-or-user-file x pool kind x options) the crash-point index k is ENUMERATED over all call events made inside thejoker during the call (runs of > 8 identical consecutive sites thinned to 6), "
         "with five rotating exception kinds incl. KeyboardInterrupt, plus worker-before/after x abort/continue, pool.map broken, unserialisable task, and k-th generator draw failing. After each trial: the exception reached the caller with the injected error on its chain, "
-        "no temp cache file remains, the user file's SHA-256/size/mtime are unchanged, and the same TheJoker object repeats the call bit-identically to a fresh twin.",
+        "no temp cache file remains (by name -- '.hdf5'/'.h5' anywhere -- or HDF5 signature), the user file's SHA-256/size/mtime are unchanged, and the same TheJoker object repeats the call bit-identically to a fresh twin. A swallowed fault counts only if the result differs from the fault-free result of the same seed. Workloads also cover: prior samples requested by count (bounded sample of crash points, call sites in prior.py preferred), an empty library object (the call fails by itself: natural failing exit path), a user file kept inside the sampler's tempfile_path after an earlier call, pool life-cycle (close/terminate => 'Pool not running'), worker exceptions that pickle but cannot be rebuilt in the parent (a real pool would hang).",
         "level_note": "Complete over k per sampled workload up to the stated thinning rule; workloads are sampled. Calls made inside the Cython kernel are not call events (covered via the RNG seam). Leak clause waived only when the failed call is the cleanup os.unlink itself.",
         "design_ref": "DESIGN.md section 4 / C13",
         "rule": "One case = one workload whose crash points are enumerated. evaluations counts workloads; distinct_nontrivial counts distinct (entry point, call site file:function->callee, exception kind) and (entry point, non-call fault kind, position) tuples at which a fault actually FIRED.",
-        "assumptions": ["thinning: runs of > 8 identical consecutive call sites reduced to first/middle/last + 3 seeded picks (quick); thorough enumerates all"],
+        "assumptions": ["thinning: runs of > 8 identical consecutive call sites reduced to first/middle/last + 3 seeded picks (quick); thorough enumerates all", "workloads on the dill transport and by-count workloads enumerate a bounded seeded sample of crash points (24 / 12-40) because every trial re-evaluates pytensor graphs", "one KNOWN finding (prior.sample swallows log-prior failures on the by-count entry point), see known_findings.json"],
     },
     "C14": {
         "level": "exploration",
@@ -115,7 +115,7 @@ META = {
         "level": "exploration",
         "technique": "deterministic simulation: invariant on every task list crossing the pool seam and on every batch_tasks call the package makes; start_idx>0 by direct seeded calls (plain random testing, labelled)",
         "level_text": "Invariant checked on every partition observed in simulated runs (contiguous, non-empty, non-overlapping, ordered, exact cover of range or array, each task carries its own start) plus direct seeded calls of utils.batch_tasks for start_idx > 0, which the package itself never uses -- that part is plain random testing of a pure function and is labelled so.",
-        "level_note": "Reference is the statement itself (not a particular partition): the way the remainder is distributed and the number of batches are not constrained.",
+        "level_note": "Reference is the statement itself (not a particular partition): the way the remainder is distributed and the number of batches are not constrained. Also checked: what crosses the pool seam equals the partition produced, and every fan-out covers what run_worker was asked to cover (index array / first n_prior_samples rows / all rows of the file now). Thorough tier adds a scale probe (> 65536 indices in one fan-out).",
         "design_ref": "DESIGN.md section 4 / C16",
         "rule": "One case = one simulated run with several sampling ops and 4-12 direct batch_tasks calls. distinct_nontrivial counts distinct (n_tasks, n_batches, with_array[, start_idx]) tuples reached plus distinct non-trivial schedules; n_tasks=1 with n_batches=1 is trivial.",
         "assumptions": ["start_idx>0 reached only by direct calls"],
